@@ -79,7 +79,7 @@ func checkC15(c *Check) {
 					return false
 				}
 				fv := fieldOf(info, call.Fun)
-				return fv != nil && fv.Name() == field && len(call.Args) == 1 && objOf(info, call.Args[0]) == arg
+				return fv != nil && objName(fv) == field && len(call.Args) == 1 && objOf(info, call.Args[0]) == arg
 			}
 			if !normOf(azCall.Args[1], "authNorm", authName) {
 				msg = "the user name passed to the entitlement lookup is not the normalised authenticated user"
@@ -90,7 +90,7 @@ func checkC15(c *Check) {
 			ast.Inspect(r.FI.Decl.Body, func(n ast.Node) bool {
 				if as, ok := n.(*ast.AssignStmt); ok && len(as.Rhs) == 1 {
 					if call, ok := ast.Unparen(as.Rhs[0]).(*ast.CallExpr); ok {
-						if fv := fieldOf(info, call.Fun); fv != nil && fv.Name() == "fromNorm" && len(call.Args) == 1 && objOf(info, call.Args[0]) == email {
+						if fv := fieldOf(info, call.Fun); fv != nil && objName(fv) == "fromNorm" && len(call.Args) == 1 && objOf(info, call.Args[0]) == email {
 							fromNormObj = objOf(info, as.Lhs[0])
 						}
 					}
@@ -503,7 +503,7 @@ func c15ErrAction(p *Prog, fi *FuncInfo, info *types.Info, e ast.Expr, depth int
 	}
 	if methodName(call) == "Apply" {
 		fv := fieldOf(info, callRecv(call))
-		if fv == nil || fv.Name() != "errAction" {
+		if fv == nil || objName(fv) != "errAction" {
 			return false
 		}
 		hasReason := false
